@@ -1270,6 +1270,10 @@ STATE_SWITCH:
                         // We now need to check if this is the last boundary in the payload
                         parser->parser_state = STATE_BOUNDARY_IS_LAST2;
 
+                        // The next state examines the byte that follows the boundary,
+                        // which is not available if the boundary ends the input buffer.
+                        if (pos >= len) return HTP_OK;
+
                         goto STATE_SWITCH;
                     }
                 } // while
